@@ -32,12 +32,13 @@ type gnode struct {
 }
 
 type world struct {
-	nodes  map[int]*gnode
-	strat  map[int]bool // gotype -> implements Resolver
-	objs   map[int]interface{}
-	calls  []sx.S
-	strat3 map[int]byte     // C02: gotype -> 'R', 'A' or 'F' (reflection); overrides strat
-	decl   map[[2]int][]int // C02: (gotype, field) -> declared argument names in order
+	nodes    map[int]*gnode
+	strat    map[int]bool // gotype -> implements Resolver
+	objs     map[int]interface{}
+	calls    []sx.S
+	strat3   map[int]byte     // C02: gotype -> 'R', 'A' or 'F' (reflection); overrides strat
+	decl     map[[2]int][]int // C02: (gotype, field) -> declared argument names in order
+	regOrder map[[2]int][]int // C02: the parameter order given to RegisterField, when it was used
 }
 
 type lres struct{ items []interface{} }
